@@ -60,7 +60,7 @@ def execOp (sp : Spec Int Int) (cfg : Obj) (s : Sess) (op : String) : Option Ses
     | some st => (loadCheckpoint sp st s.run).map (fun r => { s with run := r })
   else if op = "badload" then
     match loadCheckpoint sp [("not_a_state_key", .int 0)] s.run with
-    | none => some { s with out := s.out ++ ["refused"] }
+    | none => some { s with run := ensureInit sp s.run, out := s.out ++ ["refused"] }  -- `_ensure_initialized()` ran before `set_state` raised
     | some r => some { s with run := r, out := s.out ++ ["accepted"] }
   else if op = "reinit" then some { s with run := reinitialize sp s.run }
   else if op.startsWith "s" then
